@@ -1,0 +1,8 @@
+//go:build !verif
+
+// Package verifhook provides scheduling hooks for the verification harness. Without the "verif"
+// build tag every hook is an empty function.
+package verifhook
+
+// Yield marks a point where a goroutine touches state shared with other goroutines.
+func Yield(site string) {}
